@@ -104,7 +104,7 @@ theorem TInv.thread {p : P} (h : TInv p) {t : Nat} {th : Thread} (ht : p.threads
     ThreadInv p.gb th := h.threads th (List.mem_of_getElem? ht)
 
 theorem ThreadInv.withProcess {g : GB} {th old : Thread} (h : ThreadInv g th) (ho : ThreadInv g old) :
-    ThreadInv g { th with process := old.process } := by
+    ThreadInv g { th with process := old.process, tid := old.tid } := by
   obtain ⟨a1, a2, a3, a4, a5, a6, a7, a8, _, a10⟩ := h
   exact ⟨a1, a2, a3, a4, a5, a6, a7, a8, ho.2.2.2.2.2.2.2.2.1, a10⟩
 
